@@ -23,7 +23,7 @@ EXPLANATION = (
     "are only covered by the address assertion.")
 ASSUMPTIONS = ["user CastFrom impls return a pointer to the same object (asserted at run time by attach_vtable / register)"]
 TRUSTED = ["rustc nightly MIR construction", "shred-facts driver", "shredlint analyses"]
-TECHNIQUE = 'static: path enumeration of register (equal append counts, index = len before insert, occupied arm overwrites), table-mutation inventory, lookup wiring and pointer provenance, decision table of attach_vtable, same-index / once-per-iteration analysis of the iterators'
+TECHNIQUE = 'static: structured evaluation of register (equal append counts, index = len before the insertion with nothing entering the map in between, occupied arm overwrites), table-mutation inventory, lookup wiring and pointer provenance, decision table of attach_vtable, same-index / once-per-iteration analysis of the iterators (get or indexed read behind a length comparison), shared / exclusive siblings compared on their canonical tabulations'
 RULE_TEXT = "one obligation per path of register, per table-mutation site, per lookup wiring, per index use in the iterators"
 
 MT = A.METATABLE
